@@ -28,9 +28,8 @@ class Module:
         self.relpath = relpath        # e.g. 'pyerrors/obs.py'
         with open(path, encoding='utf-8') as fh:
             self.src = fh.read()
-        self.tree = ast.parse(self.src, filename=path)
         from . import normalise
-        self.normalised = normalise.apply(self.tree, relpath)   # locals renamed back to reference names, new temporaries inlined
+        self.tree, self.normalised = normalise.parse_normalised(self.src, path, relpath)   # locals renamed back to reference names, refactorings restored
         self.digest = hashlib.sha256(self.src.encode()).hexdigest()[:16]
         self.aliases = {}             # local name -> dotted real name
         self.defs = {}                # qualname -> node (FunctionDef / ClassDef)
